@@ -344,6 +344,8 @@ fn defect_eval(lp: &LowPrec, k: i128, r: Repr) -> Option<i128> {
 }
 
 const NAMES: [&str; 12] = ["A", "B", "C", "D", "E", "F", "G", "H", "I", "J", "L", "M"];
+/// names that are pairwise equal ignoring case (the derive builds one constant per variant from its name)
+const CASE_NAMES: [&str; 12] = ["Kb", "KB", "Mb", "MB", "kb", "Gb", "GB", "gB", "Ab", "AB", "Tb", "TB"];
 const ODD_NAMES: [&str; 8] = ["Error", "Ok", "Err", "None", "Some", "r#fn", "r#type", "Self_"];
 
 fn build(d: &mut Dice) -> GenCase {
@@ -406,6 +408,7 @@ fn build(d: &mut Dice) -> GenCase {
     let use_lt2 = gen_extra == 2 && use_lt;
     let mut lt2_used = false;
     let odd_names = d.chance(10);
+    let case_names = !odd_names && d.chance(8);
     for i in 0..nv {
         let next = match cur {
             None => Some(0),
@@ -434,7 +437,13 @@ fn build(d: &mut Dice) -> GenCase {
         } else {
             [Form::Unit, Form::EmptyTuple, Form::EmptyBrace, Form::Tuple, Form::Struct][d.weighted(&[8, 2, 2, 3, 2])]
         };
-        let name = if odd_names && i < ODD_NAMES.len() { ODD_NAMES[(i * 3 + 1) % ODD_NAMES.len()].to_string() } else { NAMES[i].to_string() };
+        let name = if odd_names && i < ODD_NAMES.len() {
+            ODD_NAMES[(i * 3 + 1) % ODD_NAMES.len()].to_string()
+        } else if case_names {
+            CASE_NAMES[i % CASE_NAMES.len()].to_string()
+        } else {
+            NAMES[i].to_string()
+        };
         // odd names are picked with a stride coprime to the table length: pairwise distinct for i < 8
         let (value, explicit_text) = if explicit {
             let pool: [i128; 30] = [
@@ -874,6 +883,9 @@ fn build(d: &mut Dice) -> GenCase {
     }
     if any_lowprec_visible {
         labels.push("implicit_after_low_precedence_expression".into());
+    }
+    if case_names && nv >= 2 {
+        labels.push("variant_names_differing_only_in_case".into());
     }
     if odd_names {
         labels.push("odd_variant_names".into());
